@@ -2,7 +2,7 @@
 (* Contract layer: the ideal in-memory map a user may rely on (C01), with the results of  *)
 (* every call.  Keys and values are ids; 0 (NoneId) stands for "absent" / None.           *)
 (* A map is a function from the set of live key ids to value ids.                         *)
-EXTENDS Integers, FiniteSets, Sequences, TLC
+EXTENDS Integers, FiniteSets, Sequences, SequencesExt, TLC
 
 NoneId == 0
 EmptyMap == <<>>
@@ -20,16 +20,18 @@ MDel(m, k)      == <<[x \in (DOMAIN m) \ {k} |-> m[x]], MGet(m, k)>>
 ItemsAreMap(items, m) ==
     /\ Len(items) = MLen(m)
     /\ \A i \in 1..Len(items) : items[i][1] \in DOMAIN m /\ m[items[i][1]] = items[i][2]
-    /\ \A i, j \in 1..Len(items) : items[i][1] = items[j][1] => i = j
+    /\ Cardinality({items[i][1] : i \in 1..Len(items)}) = Len(items)          \* no key twice
 \* keys() / values() flavours: projections, as multisets
 KeysAreMap(keys, m) ==
     /\ Len(keys) = MLen(m)
     /\ \A i \in 1..Len(keys) : keys[i] \in DOMAIN m
-    /\ \A i, j \in 1..Len(keys) : keys[i] = keys[j] => i = j
+    /\ Cardinality({keys[i] : i \in 1..Len(keys)}) = Len(keys)
 ValuesAreMap(vals, m) ==
-    /\ Len(vals) = MLen(m)
-    /\ \A v \in {vals[i] : i \in 1..Len(vals)} \cup {m[k] : k \in DOMAIN m} :
-          Cardinality({i \in 1..Len(vals) : vals[i] = v}) = Cardinality({k \in DOMAIN m : m[k] = v})
+    LET dom == SetToSeq(DOMAIN m)
+        mv  == [i \in 1..Len(dom) |-> m[dom[i]]]          \* the values of the map, each looked up once
+    IN /\ Len(vals) = Len(mv)
+       /\ \A v \in {vals[i] : i \in 1..Len(vals)} \cup {mv[i] : i \in 1..Len(mv)} :
+             Cardinality({i \in 1..Len(vals) : vals[i] = v}) = Cardinality({i \in 1..Len(mv) : mv[i] = v})
 \* size hints: before step i (1-based, i = 1..len+1) the hint is (len-i+1, Some(len-i+1))
 HintsExact(hints, n) == /\ Len(hints) = n + 1
                         /\ \A i \in 1..(n + 1) : hints[i] = n - i + 1
